@@ -279,6 +279,9 @@ def _r4(ctx):
             e = e.args[0]
         return e, seen
     verdict, why, node = None, "no assignment to `kernel` under `if args.lines`", None
+    # (the parsed file under its name, or - where it has a single definition and was substituted - as that expression)
+    pc_texts = {"parsed_code"} | {U(flow.subst(a_.value)) for a_ in C.assigns_to(i.node, "parsed_code") if isinstance(a_, ast.Assign)} | {
+        U(a_.value) for a_ in C.assigns_to(i.node, "parsed_code") if isinstance(a_, ast.Assign)}
     if len(ksel) == 1:
         node = ksel[0]
         v = flow.subst(node.value)
@@ -293,13 +296,13 @@ def _r4(ctx):
         if isinstance(v, ast.ListComp) and len(v.generators) == 1:
             g = v.generators[0]
             it, wr = strip_wrappers(g.iter, ("list", "tuple"))
-            if U(it) == "parsed_code" and U(v.elt) == U(g.target) and len(g.ifs) == 1:
+            if U(it) in pc_texts and U(v.elt) == U(g.target) and len(g.ifs) == 1:
                 c = g.ifs[0]
                 if isinstance(c, ast.Compare) and len(c.ops) == 1 and isinstance(c.ops[0], ast.In) and U(c.left) == U(g.target) + ".line_number":
                     src_e, _ = strip_wrappers(c.comparators[0])
                     verdict = U(src_e) == "get_line_range(args.lines)"
                     why = "membership is tested in `%s`, not in get_line_range(args.lines)" % U(c.comparators[0])
-            elif "parsed_code" in U(g.iter) and len(g.ifs) == 1 and isinstance(g.ifs[0], ast.Compare) and isinstance(g.ifs[0].ops[0], ast.In) \
+            elif any(t_ in U(g.iter) for t_ in pc_texts) and len(g.ifs) == 1 and isinstance(g.ifs[0], ast.Compare) and isinstance(g.ifs[0].ops[0], ast.In) \
                     and U(strip_wrappers(g.ifs[0].comparators[0])[0]) == "get_line_range(args.lines)":
                 verdict = False
                 why = "a line is selected when `%s` is among the named numbers, not when its line_number is (blank lines are not parsed, so positions and line numbers differ)" % U(g.ifs[0].left)
